@@ -33,6 +33,27 @@ type recStore struct {
 	ticks  int
 	growAt int
 	grow   func()
+	// stallAt: the stallAt-th store call (1-based) does not answer until its context ends
+	stallAt              int
+	stallBegan, stallEnd bool
+}
+
+// stalled reports whether the call about to be made is the one that stalls, and if so waits for ctx.
+func (r *recStore) stalled(ctx context.Context) bool {
+	r.mu.Lock()
+	hit := r.stallAt != 0 && r.ticks+1 == r.stallAt
+	r.mu.Unlock()
+	if hit {
+		r.mu.Lock()
+		r.stallBegan = true
+		r.mu.Unlock()
+		<-ctx.Done()
+		r.mu.Lock()
+		r.stallEnd = true
+		r.mu.Unlock()
+		r.tick()
+	}
+	return hit
 }
 
 func (r *recStore) tick() {
@@ -46,10 +67,16 @@ func (r *recStore) tick() {
 }
 
 func (r *recStore) Head(ctx context.Context, o ...header.HeadOption[*vk.H]) (*vk.H, error) {
+	if r.stalled(ctx) {
+		return nil, ctx.Err()
+	}
 	defer r.tick()
 	return r.Store.Head(ctx, o...)
 }
 func (r *recStore) Tail(ctx context.Context) (*vk.H, error) {
+	if r.stalled(ctx) {
+		return nil, ctx.Err()
+	}
 	defer r.tick()
 	return r.Store.Tail(ctx)
 }
@@ -79,11 +106,17 @@ func (r *recStore) rec(op string, from, to uint64) {
 
 func (r *recStore) GetRange(ctx context.Context, from, to uint64) ([]*vk.H, error) {
 	r.rec("GetRange", from, to)
+	if r.stalled(ctx) {
+		return nil, ctx.Err()
+	}
 	defer r.tick()
 	return r.Store.GetRange(ctx, from, to)
 }
 func (r *recStore) GetByHeight(ctx context.Context, h uint64) (*vk.H, error) {
 	r.rec("GetByHeight", h, h+1)
+	if r.stalled(ctx) {
+		return nil, ctx.Err()
+	}
 	defer r.tick()
 	return r.Store.GetByHeight(ctx, h)
 }
@@ -94,6 +127,9 @@ func (r *recStore) GetRangeByHeight(ctx context.Context, from *vk.H, to uint64) 
 }
 func (r *recStore) Get(ctx context.Context, hash header.Hash) (*vk.H, error) {
 	r.rec("Get", 0, 0)
+	if r.stalled(ctx) {
+		return nil, ctx.Err()
+	}
 	defer r.tick()
 	return r.Store.Get(ctx, hash)
 }
@@ -110,6 +146,9 @@ type c10Case struct {
 	// receives GrowBy more headers (the node keeps syncing while it serves)
 	GrowAt int    `json:"grow_at,omitempty"`
 	GrowBy uint64 `json:"grow_by,omitempty"`
+	// StallAt: the StallAt-th store call of the request (1-based; 0 = never) blocks until the context
+	// the server gave it ends
+	StallAt int `json:"stall_at,omitempty"`
 }
 
 func (c c10Case) String() string {
@@ -129,13 +168,15 @@ func (c c10Case) String() string {
 var c10Chain = vk.GenChain(vk.ChainSpec{N: 210, Step: time.Second})
 
 type c10Out struct {
-	resps   []*p2p_pb.HeaderResponse
-	ticks   int
-	readErr string
-	elapsed time.Duration
-	calls   []recCall
-	reads   int
-	done    bool
+	resps []*p2p_pb.HeaderResponse
+	ticks int
+	// the stalled store call was reached / was released by the context the server gave it
+	stallBegan, stallEnd bool
+	readErr              string
+	elapsed              time.Duration
+	calls                []recCall
+	reads                int
+	done                 bool
 }
 
 func c10Exec(t *testing.T, run *vk.Run, c c10Case) (out c10Out, ok bool) {
@@ -176,7 +217,7 @@ func c10Exec(t *testing.T, run *vk.Run, c c10Case) (out c10Out, ok bool) {
 			st, _ = store.NewStore[*vk.H](ds.Wrap(false), store.WithWriteBatchSize(16))
 			_ = st.Start(bg)
 		}
-		rs := &recStore{Store: st, growAt: c.GrowAt}
+		rs := &recStore{Store: st, growAt: c.GrowAt, stallAt: c.StallAt}
 		if c.GrowAt != 0 {
 			stNow := st
 			rs.grow = func() {
@@ -267,6 +308,21 @@ func c10Exec(t *testing.T, run *vk.Run, c c10Case) (out c10Out, ok bool) {
 		out.calls = append([]recCall(nil), rs.calls...)
 		out.ticks = rs.ticks
 		rs.mu.Unlock()
+		if c.StallAt != 0 {
+			// give the server's own request timeout every chance (virtual time) before looking
+			for i := 0; i < 200; i++ {
+				rs.mu.Lock()
+				ended := rs.stallEnd || !rs.stallBegan
+				rs.mu.Unlock()
+				if ended {
+					break
+				}
+				vk.Advance(time.Second)
+			}
+			rs.mu.Lock()
+			out.stallBegan, out.stallEnd = rs.stallBegan, rs.stallEnd
+			rs.mu.Unlock()
+		}
 		out.reads = ds.Reads - readsBefore
 		ok = true
 	})
@@ -323,6 +379,9 @@ func c10Check(run *vk.Run, c c10Case, o c10Out) {
 	if c.GrowAt != 0 {
 		feat += ",store-grows"
 	}
+	if c.StallAt != 0 {
+		feat += ",store-stalls"
+	}
 	newHead := c.Head + c.GrowBy
 	viol := func(clause, format string, a ...any) {
 		run.Violate("C10/"+clause+"/"+feat, c, "%s: %s", c, fmt.Sprintf(format, a...))
@@ -335,6 +394,9 @@ func c10Check(run *vk.Run, c c10Case, o c10Out) {
 	if !o.done {
 		viol("hang", "no reply, EOF or reset within %v (virtual)", o.elapsed)
 		return
+	}
+	if o.stallBegan && !o.stallEnd {
+		viol("handler-hangs-beyond-timeouts", "store call %d of the request stalled; more than 200s (virtual) later the context the server gave it has still not ended: the handler is stuck until Stop", c.StallAt)
 	}
 	// work bound
 	asked := uint64(0)
@@ -439,7 +501,7 @@ func c10Check(run *vk.Run, c c10Case, o c10Out) {
 func TestC10(t *testing.T) {
 	run := vk.NewRun("C10", "model_checking")
 	defer run.Finish()
-	run.SetRule("real ExchangeServer over a real pruned store.Store (tail > 1) behind a recording proxy, requests written as raw frames on a mocknet stream: all (origin, amount) pairs over {0,1,tail-1,tail,tail+1,mid,head-1,head,head+1,head+64,2^64-2,2^64-1} x {0,1,2,63,64,65,head-tail+5,2^63,2^64-1}, hash requests {present,pruned,unknown,empty,512KiB}, raw byte strings {empty, one byte, prefix only, truncated, oneof unset, random, oversized prefix, silent}; deviation: for range requests on the small stores the store grows by {3,100} headers right after the k-th store call of the request, for every k the fault-free run makes; distinct = (request class relative to tail/head, reply shape)")
+	run.SetRule("real ExchangeServer over a real pruned store.Store (tail > 1) behind a recording proxy, requests written as raw frames on a mocknet stream: all (origin, amount) pairs over {0,1,tail-1,tail,tail+1,mid,head-1,head,head+1,head+64,2^64-2,2^64-1} x {0,1,2,63,64,65,head-tail+5,2^63,2^64-1}, hash requests {present,pruned,unknown,empty,512KiB}, raw byte strings {empty, one byte, prefix only, truncated, oneof unset, random, oversized prefix, silent}; deviation: for range requests on the small stores the store grows by {3,100} headers right after the k-th store call of the request, for every k the fault-free run makes, and the k-th store call stalls until the context the server gave it ends; distinct = (request class relative to tail/head, reply shape)")
 	run.Assume("work is measured as headers requested from the store proxy and datastore reads under the real store")
 	_ = datastore.ErrNotFound
 
@@ -507,6 +569,11 @@ func TestC10(t *testing.T) {
 			}
 			var add []c10Case
 			for k := 1; k <= o.ticks; k++ {
+				if growBases[i].Amount <= 2 {
+					sc := growBases[i]
+					sc.StallAt = k
+					add = append(add, sc)
+				}
 				for _, by := range []uint64{3, 100} {
 					gc := growBases[i]
 					gc.GrowAt, gc.GrowBy = k, by
